@@ -94,7 +94,7 @@ def Shape.wf (env : Env) (flex : Bool) (m : FieldMeta) : Shape → Bool
   | .prim l o =>
     (match m.kafkaType with
      | some k => leafMatches k l && (!o || k.hasNull || m.tag.isSome) && (k != .uuid || o)
-                 && (getReader k flex (o && (env.nullableTaggedReader || !m.tag.isSome))).toOption.isSome
+                 && (getReader k flex (readerOptional env k flex o m.tag.isSome)).toOption.isSome
                  && (getWriter k flex (!m.tag.isSome && o)).toOption.isSome
      | none => false)
   | .primArr l e a =>
